@@ -67,6 +67,20 @@ func c15KvGen(r *verifh.Rng) []verifh.Section {
 				conf[0] = conf[0][:strings.IndexByte(conf[0], '/')] + "/100"
 			}
 			ops = append(ops, "build "+strings.Join(conf, ","))
+			if len(conf) >= 2 && r.Chance(1, 2) {
+				// a SECOND instance from the same entries in another order (rotated or reversed): with distinct
+				// addresses the membership is the same and so must be the dispatch of every key
+				perm := append([]string{}, conf...)
+				if r.Bool() {
+					k := r.Range(1, len(perm)-1)
+					perm = append(perm[k:], perm[:k]...)
+				} else {
+					for a, b := 0, len(perm)-1; a < b; a, b = a+1, b-1 {
+						perm[a], perm[b] = perm[b], perm[a]
+					}
+				}
+				ops = append(ops, "build "+strings.Join(perm, ","))
+			}
 		}
 		secs = append(secs, verifh.Section{Cfg: "user=kv probes=" + strings.Join(probes, ","), Ops: ops})
 	}
